@@ -2006,8 +2006,8 @@ static void large_geometry(Op& o, vf::Rng& r, const Canvas& d, const Canvas& s) 
         if (r.chance(1, 3)) o.sy = r.range(-2, 2);
         o.w = far_extent(r, max(d.w, s.w), r.chance(1, 2) ? o.x : o.sx);
         o.h = far_extent(r, max(d.h, s.h), r.chance(1, 2) ? o.y : o.sy);
-        if (r.chance(1, 2)) {
-          // long run: the copied area spans (nearly) the whole common length of both canvases, so the inner loops make
+        if (r.chance(max(d.w, d.h) > 65536 ? 2 : 1, max(d.w, d.h) > 65536 ? 3 : 2)) {
+          // long run (more often where it can exceed 2^16 steps): the copied area spans (nearly) the whole common length of both canvases, so the inner loops make
           // tens of thousands of steps and the far ends of source AND destination are reached within one call
           static const int64_t huge[] = {65536, 65537, 131072, 2147483647LL, 2147483648LL};
           for (int axis = 0; axis < 2; axis++) {
@@ -2051,6 +2051,7 @@ static void large_rect_ops(const Geom& g, Canvas& dm, Image& img, Canvas sms[2],
       continue;
     }
     int which = (int)r.below(9);  // 0..3: small source, 4..7: long source, 8: self
+    if (which < 2 && kind <= K_CUSTOM64 && max(dm.w, dm.h) > 65536) which += 4;  // canvases beyond 2^16: long source 2/3 of the time
     bool self = which == 8 && kind != K_RESIZE && kind <= K_CUSTOM64;
     const Canvas& sc = self ? dm : sms[(which / 4) % 2];
     Op o = gen_op(r, kind, dm, sc, pal, false);
@@ -2308,8 +2309,8 @@ static void large_suite(vf::Rng&) {
       int fmtsel = (int)((idx * 3 + idx / 8 + C->seed + (uint64_t)f) % 8);
       uint64_t cseed = (C->seed * 1000003ULL + idx) * 8 + (uint64_t)f;
       // fewer requests on the biggest canvases (cost is linear in the pixel count)
-      int nops = npx > 600000 ? 8 : npx > 150000 ? 12 : 18;
-      large_canvas_case(g, fmtsel, cseed, q ? nops : 2 * nops, q ? (npx > 150000 ? 12 : 20) : 48, q ? (npx > 150000 ? 5 : 8) : 20, q ? (npx > 150000 ? 6 : 10) : 20,
+      int nops = npx > 600000 ? 12 : npx > 150000 ? 15 : 18;
+      large_canvas_case(g, fmtsel, cseed, q ? nops : 2 * nops, q ? (npx > 150000 ? 8 : 20) : 48, q ? (npx > 150000 ? 4 : 8) : 20, q ? (npx > 150000 ? 6 : 10) : 20,
           q ? (npx <= 20000 || (idx / 16 + idx + C->seed) % 8 == 0) : (npx <= 300000 || f % 4 == 0));
     }
   }
